@@ -248,7 +248,7 @@ fn builtin_on_odd_values(seed: u64) -> String {
   }
 }
 
-const ODD_CONTEXTS: [&str; 28] = [
+const ODD_CONTEXTS: [&str; 30] = [
   // a function that invokes itself for ever (an entry of a context literal sees itself)
   "{f: function(n) f(n + 1), s: string(f(1))}",
   "{f: function(n) if n < 0 then 0 else 1 + f(n + 1), s: string(f(1))}",
@@ -262,6 +262,9 @@ const ODD_CONTEXTS: [&str; 28] = [
   "{n: 10**6144*10 - 10**6144*10, s: string(time(1, 0, n, duration(\"PT1H\")))}",
   "{s: string(sublist([1,2,3], 2, 18446744073709551615))}",
   "{s: string(sublist([1,2,3], -1, 18446744073709551615))}",
+  // a list nested forty deep, as an input and as a computed value
+  "{s: [[[[[[[[[[[[[[[[[[[[[[[[[[[[[[[[[[[[[[[[1]]]]]]]]]]]]]]]]]]]]]]]]]]]]]]]]]]]]]]]]}",
+  "{l: [[[[[[[[[[[[[[[[[[[[[[[[[[[[[[[[[[[[[[[[1]]]]]]]]]]]]]]]]]]]]]]]]]]]]]]]]]]]]]]]], s: string(l instance of list<Any>)}",
   // an iteration whose range ends at the largest integer the iterator counts in
   "{s: string(count(for i in 9223372036854775807..9223372036854775807 return i))}",
   // a NUL character in a text converted to a number
